@@ -62,6 +62,7 @@ type FuncContract struct {
 	Trusted     bool
 	Safety      bool
 	NoVerify    bool // contract is assumed for the body too (trusted)
+	FrameAssumed bool // the modifies clause is assumed, the assertions are verified
 	Dead        []string // callee patterns: blocks calling these may be unreachable
 	StoreNames  []string // variables/fields whose stores are tracked as events ("before store X", stored(X))
 	Callback    string // name of a function-typed parameter that the callee invokes any number of times
@@ -105,7 +106,7 @@ type Contracts struct {
 	Errors []string
 }
 
-var keywordRe = regexp.MustCompile(`^(dead|track|callback|ghost|spec|func|interface|requires|ensures|modifies|loop|before|after|on|forbid|inline|pure|stable|trusted|safety|noverify)\b`)
+var keywordRe = regexp.MustCompile(`^(dead|track|callback|ghost|spec|func|interface|requires|ensures|modifies|loop|before|after|on|forbid|inline|pure|stable|trusted|safety|noverify|frameassumed)\b`)
 var loopKeyRe = regexp.MustCompile(`^(\$[0-9$]+\.)?[0-9]+$`)
 var labelRe = regexp.MustCompile(`^([A-Za-z][A-Za-z0-9_-]*):\s+(.*)$`)
 
@@ -528,6 +529,10 @@ func (c *Contracts) flag(fc *FuncContract, f, pos string) {
 		fc.Safety = true
 	case "noverify":
 		fc.NoVerify = true
+	case "frameassumed":
+		// the modifies clause is used by callers but not checked against the body (listed as an
+		// assumption); the assertions of the contract are still verified
+		fc.FrameAssumed = true
 	default:
 		c.errf("%s: unknown flag %q", pos, f)
 	}
